@@ -286,6 +286,40 @@ Example c40_example_cache_miss :
   /\ n_db (fold_left (fun st op => snd (node_step st op)) w_miss (node_init 0 chan1 2)) = db_empty.
 Proof. vm_compute. repeat split; reflexivity. Qed.
 
+(* non-vacuity of c40_finish_persists_cached_partial: its hypotheses hold in the
+   state reached by w_ok's delta, for w_ok's finish and the cached lane "main" *)
+Definition st_after_delta : NodeSt :=
+  match w_ok with op :: _ => snd (node_step (node_init 0 chan1 2) op) | [] => node_init 0 chan1 2 end.
+Definition fin_ok : Event :=
+  match w_ok with
+  | [_; NEv e _] => match normalizeMessageEventAppend e with Some ne => ne | None => e end
+  | _ => mkEvent [] 0%Z [] [] [] [] [] 0%Z payload_empty 0%Z
+  end.
+Example c40_example_finish_persists_hypotheses :
+  let st := st_after_delta in let fin := fin_ok in
+  let lane := hd state_zero (openStatesForFinish (n_cache st) fin) in
+  exists s', get_state (n_db (snd (appendMessageEventFinishLocal st fin false)))
+                       (hash_slot_of st (e_channel fin)) (e_channel fin) (e_ctype fin) (e_msgno fin) (st_key lane) = Some s'
+             /\ isMessageEventTerminal (st_status s') = true
+             /\ s_raw (st_snap s') = marshal_text (hx "6162").
+Proof.
+  intros st fin lane.
+  destruct (appendMessageEventFinishLocal st fin false) as [out st'] eqn:E. cbn [snd].
+  assert (Hok : ao_err (fst (appendMessageEventFinishLocal st fin false)) = ENone) by (vm_compute; reflexivity).
+  rewrite E in Hok. cbn [fst] in Hok.
+  destruct (c40_finish_persists_cached_partial st fin out st' lane (s_canon (st_snap lane)) E Hok) as (s' & G & T & R).
+  - intros ev Hin. vm_compute in Hin. destruct Hin as [<-|[<-|[]]]; vm_compute; reflexivity.
+  - vm_compute. repeat constructor. intros [].
+  - intro H. vm_compute in H. discriminate.
+  - intro H. vm_compute. reflexivity.
+  - vm_compute. left. reflexivity.
+  - vm_compute. reflexivity.
+  - vm_compute. reflexivity.
+  - vm_compute. reflexivity.
+  - vm_compute. reflexivity.
+  - exists s'. split; [exact G|]. split; [exact T|]. rewrite R. vm_compute. reflexivity.
+Qed.
+
 (* KNOWN FINDING C40-K1 (monitor code 2).  delta "ab" acknowledged; finish with payload
    {"end_reason":300}: the merged flush payload does not decode (end_reason is a uint8),
    the lane is closed durably WITHOUT the cached snapshot and the completed marker is written *)
